@@ -457,7 +457,8 @@ pub fn long_run(sc: &VmSc, obs: &mut Obs) -> Vec<Tagged> {
         return out;
     }
     let mut init = sc.init.clone();
-    init.limit = init.limit.min(LONG_CAP);
+    // (a single entry in `limits` overrides the cap: the "very long" executions of millions of steps)
+    init.limit = init.limit.min(sc.limits.first().copied().unwrap_or(LONG_CAP));
     let l = init.limit;
     let Ok(real) = build_real(&init) else {
         obs.hit("probe.builder-rejected-initial-contents");
@@ -496,6 +497,9 @@ pub fn long_run(sc: &VmSc, obs: &mut Obs) -> Vec<Tagged> {
     m.out = printed;
     obs.count("steps", steps as u64);
     obs.hit("probe.long-run");
+    if steps >= 1_000_000 {
+        obs.hit("probe.long-run-of-millions-of-steps");
+    }
     if ambiguous {
         obs.hit("probe.long-run-without-exact-prediction");
     }
